@@ -271,7 +271,22 @@ def check_step(c, model, op, acc, case, feats):
                 acc.violation(f'{op[0]}/block-extraction-shape', case, f'{en.inputs} {en.outputs}', feats)
             elif en.out_tables() != oth.out_tables():
                 acc.violation(f'{op[0]}/block-extraction-function', case, f'{en.to_json()}', feats)
+            elif refmodel.wellformed(ext, deep=False):
+                # the extracted circuit is a circuit like any other: users index, both topological orders ...
+                acc.violation(f'{op[0]}/block-extraction-ill-formed', case, refmodel.wellformed(ext, deep=False)[:3], feats)
             else:
+                # ... and it can be attached again
+                try:
+                    from cirbo.core.circuit import Circuit
+
+                    host = Circuit()
+                    host.add_circuit(ext, name='again')
+                    hn = refmodel.abstract(host)
+                    if refmodel.wellformed(host, deep=False) or len(hn.inputs) != len(en.inputs) or hn.out_tables() != en.out_tables():
+                        acc.violation(f'{op[0]}/extracted-block-cannot-be-attached-again', case, f'{hn.to_json()}', feats)
+                except Exception as e:  # noqa: BLE001
+                    acc.violation(f'{op[0]}/extracted-block-cannot-be-attached-again', case, repr(e)[:200], feats)
+                # the extracted circuit is the caller's: changing it must not affect a later extraction
                 # the extracted circuit is the caller's: changing it must not affect a later extraction
                 try:
                     ext.set_outputs([])
